@@ -262,6 +262,17 @@ func c10Templates() []c10Template {
 			op := lx.Op{Kind: "schema", Schema: a.get("schemaVersion", "v0"), SchemaData: `{"chart":{}}`}
 			return []lx.Op{deco(a, op)}
 		}},
+		// a schema inserted by a request that itself names an existing schema version (the
+		// schemaVersion parameter every write endpoint takes): the INSERTED_SCHEMA log carries
+		// a schema version like any other log
+		{"schema-on-version", func(a *assign) []lx.Op {
+			sv := a.get("schemaVersion", "v0")
+			op := lx.Op{Kind: "schema", Schema: "next", SchemaData: `{"chart":{}}`, OnSchema: sv, IK: a.get("ik", "")}
+			if sv == "" {
+				return []lx.Op{op}
+			}
+			return []lx.Op{{Kind: "schema", Schema: sv, SchemaData: `{"chart":{}}`}, op}
+		}},
 	}
 }
 
@@ -296,7 +307,7 @@ func buildCases(fields []string, classes []strClass) []c10Case {
 			continue
 		}
 		applyShapes(ops, fields, names)
-		if sv, ok := a.m["schemaVersion"]; ok && t.Name != "schema" && sv != "" {
+		if sv, ok := a.m["schemaVersion"]; ok && t.Name != "schema" && t.Name != "schema-on-version" && sv != "" {
 			// a write can only name a schema version that exists: insert it first
 			ops = append([]lx.Op{{Kind: "schema", Schema: sv, SchemaData: `{"chart":{}}`}}, ops...)
 		}
@@ -811,7 +822,7 @@ func runC10(r *ev.Run) (ev.Coverage, []string) {
 		"memento_shapes_hashed":  mementoShape,
 		"samples":                samples.List(),
 		"exhaustive":             doneSingles && donePairs,
-		"rule": "for every template (post, script with set_tx_meta/set_account_meta, revert, tx/account metadata set and delete, schema insertion) x every dimension that applies to it x every class of the dimension, singly, then " + pairRule +
+		"rule": "for every template (post, script with set_tx_meta/set_account_meta, revert, tx/account metadata set and delete, schema insertion, schema insertion by a request naming an existing schema version) x every dimension that applies to it x every class of the dimension, singly, then " + pairRule +
 			". Dimensions: (a) free-text fields (idempotency key, schema version, metadata key, metadata value, reference, account-metadata value, revert metadata, account address) x character classes, among which the EMPTY string (absent idempotency key / reference / schema version, empty metadata key or value); (b) SHAPE fields: metaDoc = the metadata document of the operation under test (body of SET_METADATA on a transaction / an account, metadata of a created transaction, request metadata of a script, metadata of a revert) in {null (nil map, what a `null` body decodes to), empty {}}, accMetaDoc = the accountMetadata document of a creation in {null, empty {}, one entry that is null, one entry that is {}} (the non-empty shape is what all other cases use). " +
 			"The write goes through the real system controller on a HASH_LOGS=SYNC ledger on pgsim (the hash is computed by the set_log_hash trigger executed from the migration text); afterwards every stored hash of the ledger is compared with Log.ComputeHash(predecessor), chained on the stored hash of the predecessor as Import chains them, recomputed in Go from FOUR views of the same log: written (the log the controller returned from the write, i.e. the in-memory payload handed to InsertLog), store (read back through ListLogs), export (read back through Export), stream (the exported log encoded by json.Encoder and decoded into ledger.Log as the import endpoint decodes its stream). Finding kinds: mismatch (no view agrees with the trigger), readback-mismatch (the written log agrees with the trigger, the log read back does not: write path and read path disagree on the payload), written-mismatch (the converse), schemaVersion-omitted, sql-error (write refused by the database itself, SQLSTATE); a validation rejection is only counted. memento_shapes_hashed counts the document shapes found in the memento bytes the trigger actually hashed.",
 	}
